@@ -464,6 +464,22 @@ func (c *Ctx) trCall(x *ast.CallExpr) Val {
 			return bval(fmt.Sprintf("(forall ((%s Int)) %s)", bv, imp(rng, body)))
 		}
 		return bval(fmt.Sprintf("(exists ((%s Int)) %s)", bv, and(rng, body)))
+	case "unchanged":
+		// unchanged("pkg.Type.field", "elems:pkg.Type.field", ...): these heap maps are identical to old()
+		if c.Old == nil {
+			c.fail(x, "unchanged() needs an old state")
+		}
+		var cs []string
+		for _, a := range args {
+			lit, ok := litOf(a)
+			if !ok {
+				c.fail(x, "unchanged takes string literals")
+			}
+			for _, ks := range c.E.resolveHeapItem(lit) {
+				cs = append(cs, eq(c.E.heapKey(c.St, ks[0], ks[1]), c.E.heapKey(c.Old.St, ks[0], ks[1])))
+			}
+		}
+		return bval(and(cs...))
 	case "isZero":
 		v := c.tr(args[0])
 		z := zeroVal(v.T)
